@@ -75,6 +75,8 @@ def main():
                     for fn in os.listdir(src):
                         if fn.endswith('.txt') or fn.endswith('.stderr') or fn.endswith('.log'):
                             shutil.copy(os.path.join(src, fn), keep)
+                        elif fn.startswith('death-'):
+                            shutil.copytree(os.path.join(src, fn), os.path.join(keep, fn), dirs_exist_ok=True)
                 inc = [l for l in lines if l.startswith('INCONCLUSIVE')][:1]
                 results.append((m, 'INCONCLUSIVE', (inc or [''])[0][:220] + r.stderr[-200:], dt))
             else:
